@@ -11,6 +11,7 @@ weights sum to the measure, integrate() = weights . values."""
 import math
 import os
 
+import extie
 import gridlib as gl
 import moments
 import vlib
@@ -24,6 +25,8 @@ TRUSTED = [
     "modelled: the multi-dimensional assembly (lower set, hierarchical differences, declared polynomial space) in exact algebra; "
     "NOT modelled: one-dimensional node/weight generation (eigen-solves, tables, greedy sequences), the exactness tables getQExact, "
     "curved/hyperbolic contour arithmetic, the inclusion-exclusion form of the weights (tied numerically: the implementation's weights are tested on the declared space directly)",
+    "translator translator/exactness.py (clang JSON AST of OneDimensionalMeta::getNumPoints/getIExact/getQExact -> coq/gen/ExactnessGen.v, compared entry by entry with the compiled library on every run): "
+    "monotone tables (hypothesis m_mono), the n-1 / 2n-1 bounds and the instantiation of the sparse theorems with the library table are proved for all levels (Props/Properties_Exactness.v)",
 ]
 
 TOL = 2e-10
@@ -88,6 +91,7 @@ def gen_case(r, cid, tier):
 def run(res, tier, seed, replay_script=None):
     props = vlib.coq_props(PID)
     vlib.proof_coverage(res, PID, props, "cd coq && make Props/Properties_C02.vo && coqc -Q . TV Props/Properties_C02.v", TRUSTED)
+    ex_break = extie.run(res, PID)      # the exactness tables re-translated from the source, compared with the library and re-proved monotone / bounded
     proof_broken = (not props["ok"]) or bool(res.coverage["forbidden_tokens"])
     drv = vlib.build_driver("tsgdrv")
     wd = os.path.join(vlib.BUILD, "work", PID)
@@ -263,6 +267,7 @@ def run(res, tier, seed, replay_script=None):
                 res.violation("integrate-vs-weights:" + fam, "integrate() = %.12g but weights . values = %.12g [%s]" % (ig[0], s, script[1]), replay)
         if npt >= 5:
             nontrivial += 1
+    extie.report(res, ex_break)
     if proof_broken and not res.violations:
         res.violation("proof", "proof obligations of Properties_C02.v no longer check (%d/%d) %s" % (props["discharged"], props["obligations"], res.coverage["forbidden_tokens"][:2]),
                       {"kind": "proof-break", "theorems": props["theorems"], "log": props["log"][-3000:]}, no_input=True)
